@@ -627,6 +627,10 @@ func init() {
 		fr.i.px.setUser("onsync", a[0])
 		return nil
 	})
+	reg(vrtPkg+"LocksHeld", func(fr *frame, a []value) value {
+		w, r := fr.i.px.heldLocks()
+		return len(w) + len(r)
+	})
 	reg(vrtPkg+"OnBlock", func(fr *frame, a []value) value {
 		fr.i.px.setUser("onblock", a[0])
 		return nil
